@@ -56,6 +56,7 @@ var (
 	pLevel  int32          // 0 = off
 	pShort  [NKinds]uint32 // probability (out of 65536) of a short pause at this kind
 	pLong   uint32         // probability (out of 65536) of a long pause at any kind
+	pLongK  [NKinds]uint32 // per kind (the focused kind gets a higher one)
 	pLongMx uint32         = 3000
 )
 
@@ -82,8 +83,15 @@ func SetPerturb(level int, focus Kind) {
 	pShort[KAfterUnlock] = base * 2
 	pShort[KAdd] = base * 2
 	pShort[KBroadcast] = base * 2
+	for i := range pLongK {
+		pLongK[i] = long
+	}
 	if focus < NKinds && level > 0 {
+		// the focused kind of point pauses half of the time, and some are
+		// long one (hundreds to thousands of yields): long enough for a whole table copy,
+		// a Clear or several other calls to fit between two adjacent operations
 		pShort[focus] = 65536 / 2
+		pLongK[focus] = 65536 / 48
 	}
 	pLong = long
 }
@@ -100,7 +108,7 @@ func perturb(k Kind) {
 		}
 		return
 	}
-	if (r>>16)&0xffff < pLong {
+	if (r>>16)&0xffff < pLongK[k] {
 		n := rand.Uint32() % pLongMx
 		for i := uint32(0); i < n; i++ {
 			runtime.Gosched()
